@@ -33,6 +33,7 @@ def run(ctx: Ctx) -> None:
     _memo.rule_negative_start(ctx, ['graphiq/solvers/evolutionary_solver.py', 'graphiq/solvers/hybrid_solvers.py'])
     _memo.rule_elim_no_pivot(ctx, ['graphiq/solvers/evolutionary_solver.py', 'graphiq/solvers/hybrid_solvers.py'])
     solvers.rule_twoqubit(ctx)
+    solvers.rule_emission_first(ctx)
     solvers.rule_move_filters(ctx)
     solvers.rule_frontinsert(ctx)
     shapes.rule_conversion_ops(ctx)
@@ -46,6 +47,7 @@ def run(ctx: Ctx) -> None:
 
 
 KNOCKOUTS = [
+    Knockout("measure-reset-inside-emission-loop", EVO, sub_once("            op.add_labels(\"Fixed\")\n\n            circuit.add(op)\n\n        # initialize all emitter measurement and reset operations\n", "            op.add_labels(\"Fixed\")\n\n            circuit.add(op)\n            if i == n_photon - 1 or emission_assignment[i] not in emission_assignment[i + 1:]:\n                mr = ops.MeasurementCNOTandReset(control=emission_assignment[i], control_type=\"e\", target=measurement_assignment[emission_assignment[i]], target_type=\"p\")\n                mr.add_labels(\"Fixed\")\n                circuit.add(mr)\n\n        # initialize all emitter measurement and reset operations\n"), "order.emission-first", "initialization"),
     Knockout("emitter-counter-uncapped", "graphiq/solvers/evolutionary_solver.py", sub_once("                    if ind == n_used_emitter and n_used_emitter < n_emitter:", "                    if ind == n_used_emitter:"), "budget.emitter-cap", "without a cap"),
     Knockout("conversion-ops-emitter", "graphiq/backends/stabilizer/functions/local_cliff_equi_check.py", sub_once('            operations_list.append(ops_list[op_index](register=gate[1], reg_type="p"))', '            operations_list.append(ops_list[op_index](register=gate[1], reg_type="e"))'), "move.filters", "str_to_op"),
     Knockout("C5-photon-control", EVO,
